@@ -70,7 +70,18 @@ def select(tier, seed):
     for kind, ncore, nq in (("conv", 80, 300), ("inv", 10, 30), ("float", 40, 140)):
         u = [k for k in uni if k["kind"] == kind]
         n = nq if tier == "quick" else len(u)
-        out += u[:ncore] + rng.sample(u[ncore:], max(0, min(len(u) - ncore, n - ncore)))
+        chosen = u[:ncore]
+        if kind == "float":
+            # stratify: every (rep type, radix, floating type) group at least once
+            groups = {}
+            for k in u[ncore:]:
+                d = k["desc"].split()
+                groups.setdefault((d[1].split(",")[0], d[2], d[3]), []).append(k)
+            for key in sorted(groups):
+                chosen.append(rng.choice(groups[key]))
+        rest = [k for k in u[ncore:] if k not in chosen]
+        chosen += rng.sample(rest, max(0, min(len(rest), n - len(chosen))))
+        out += chosen
     return out
 
 
